@@ -56,6 +56,9 @@ def gen_cases(tier, seed):
     for N in b["long_N"]:
         for dt in ("complex128", "float64"):
             yield {"kind": "long", "N": N, "dtype": dt, "seed": seed}
+    for cls in ("Signal", "BasebandSignal"):
+        for start in ("iso", "none"):
+            yield {"kind": "narrow", "cls": cls, "start": start}
 
 
 _OPS = {}
@@ -74,6 +77,8 @@ def check_case(case):
     res = report.Result()
     if case["kind"] == "long":
         return long_case(case, res)
+    if case["kind"] == "narrow":
+        return narrow_case(case, res)
     N, ss = case["N"], tuple(case["ss"])
     dtype = np.dtype(case["dtype"])
     is_c = dtype.kind == "c"
@@ -253,6 +258,59 @@ def one_call(res, case, z, zdata, XL, N, is_c, T0, srx, targ, teff, delta, n, fo
                       f"(budget {tol:.3g}) [{sub}]", case, sub)
 
 
+def narrow_case(case, res):
+    """t and n given as NumPy integer scalars of every width that holds them, on a 300-sample signal: t + n exceeds the
+    range of the narrow types, the answer must not (exact slice, or ValueError when out of range)."""
+    import warnings
+    N = 300
+    z = factory.make_encoded(case["cls"], N, nchan=2, rate_name="1kHz", start_name=case["start"])
+    zd = np.asarray(z.data)
+    T0 = T(z.start_time) if z.start_time is not None else None
+    srx = hz(z.sample_rate)
+    types = (np.int8, np.uint8, np.int16, np.uint16, np.int32, np.int64, np.uint64)
+    for t in (0, 1, 100, 127, 128, 200, 255, 256, 299, 300):
+        for n in (0, 1, 27, 28, 44, 45, 100, 101, 155, 156, 172, 173, 200, 300):
+            for Tt in types:
+                for which in ("t", "n", "both"):
+                    if (which in ("t", "both") and t > np.iinfo(Tt).max) or (which in ("n", "both") and n > np.iinfo(Tt).max):
+                        continue
+                    targ = Tt(t) if which in ("t", "both") else t
+                    narg = Tt(n) if which in ("n", "both") else n
+                    sub = {"t": t, "n": n, "type": Tt.__name__, "narrow": which}
+                    res.state(("narrow", case["cls"], case["start"], t, n, Tt.__name__, which))
+                    res.transitions += 1
+                    res.traces += 1
+                    try:
+                        with warnings.catch_warnings():
+                            warnings.simplefilter("ignore")
+                            out = pb.snippet(z, targ, narg)
+                        exc = None
+                    except Exception as e:
+                        out, exc = None, e
+                    if t + n > N:
+                        if exc is None:
+                            res.violation("snippet|narrow integer|out of range accepted", f"snippet(z, np.{Tt.__name__}({t}), {n}) on "
+                                          f"{N} samples returned {len(out)} samples instead of raising ValueError [{sub}]", case, sub)
+                        elif not isinstance(exc, ValueError):
+                            res.violation("snippet|narrow integer|wrong exception", f"{type(exc).__name__}: {exc} [{sub}]", case, sub)
+                        else:
+                            res.hits["narrow integer, out of range refused"] += 1
+                        continue
+                    if exc is not None:
+                        res.violation("snippet|narrow integer|raised", f"in-range request raised {type(exc).__name__}: {exc} [{sub}]",
+                                      case, sub)
+                        continue
+                    if len(out) != n or not np.array_equal(np.asarray(out.data), zd[t:t + n]):
+                        res.violation("snippet|narrow integer|values", f"snippet(z, {t}, {n}) with {which} as np.{Tt.__name__}: "
+                                      f"{len(out)} samples, not z[{t}:{t + n}] [{sub}]", case, sub)
+                        continue
+                    if T0 is not None and n > 0 and abs(T(out.start_time) - T0 - F(t) / srx / 86400) > 2 * ULP_T:
+                        res.violation("snippet|narrow integer|start_time", f"[{sub}]", case, sub)
+                    if t + n > np.iinfo(Tt).max:
+                        res.hits["narrow integer whose t + n does not fit its width"] += 1
+    return res
+
+
 def long_case(case, res):
     """Large offsets: fractional t far from the start must still be interpolated (float64 FFT reference)."""
     N = case["N"]
@@ -319,7 +377,8 @@ def main(argv=None):
     return report.run_check(
         PID, gen_cases=gen_cases, check_case=check_case, describe=describe,
         required_hits=["Time on start-less signal rejected", "out of range rejected", "n = 0",
-                       "whole-sample count (bit-exact slice)", "fractional (DFT interpolation)", "long signal, large offset", "request a few nano-samples off a whole sample", "sample_rate assigned before a fractional request", "argument forms"],
+                       "whole-sample count (bit-exact slice)", "fractional (DFT interpolation)", "long signal, large offset", "request a few nano-samples off a whole sample", "sample_rate assigned before a fractional request", "argument forms",
+                       "narrow integer whose t + n does not fit its width", "narrow integer, out of range refused"],
         assumptions=["the instant a request denotes is computed exactly from the form given (count / Quantity / Time); "
                      "resolution allowance 0 / 1e-15 rel / 4 ulp_T*sr samples",
                      "the start_time of an n = 0 result is constrained like any other (start + t/sample_rate)",
